@@ -23,7 +23,73 @@ def plan(tier: str, seed: int) -> List[Dict[str, Any]]:
     for i in range(n_asm):
         out.append({'kind': 'assembled', 'seed': seed, 'shard': i, 'shards': n_asm, 'tier': tier, 'timeout_s': 3000})
     out.append({'kind': 'contracts-under-repo-tests', 'seed': seed, 'shard': 0, 'timeout_s': 3000})
+    # pools larger than the compressor's window: (preset, MiB) - the repeat lies further back than the next smaller dictionary
+    large = [(9, 9, 64), (7, 9, 32), (0, 9, 64)] if tier == 'quick' else \
+        [(p, 9, 64) for p in range(10)] + [(p, 9, 32) for p in (0, 6, 7, 8, 9)] + [(8, 17, 64), (9, 17, 64), (9, 33, 64), (6, 17, 32),
+                                                                                      (0, 65, 64), (6, 65, 64)]
+    for i, (preset, mib, w) in enumerate(large):
+        out.append({'kind': 'large-compressed', 'seed': seed, 'shard': i, 'preset': preset, 'mib': mib, 'w': w, 'timeout_s': 3000})
     return out
+
+
+def shard_large(spec: Dict[str, Any]) -> Dict[str, Any]:
+    """one image whose data pool is larger than the compressor's dictionary and repeats its head at the very end: written at
+    version 3 with the given preset (and at version 1 as the plain rendering), read back, compared word by word."""
+    from flipjump.fjm.fjm_consts import FJMVersion
+    from flipjump.fjm.fjm_reader import Reader
+    from flipjump.fjm.fjm_writer import Writer
+    from flipjump.utils.exceptions import FlipJumpReadFjmException, FlipJumpWriteFjmException
+
+    rng = rng_for(spec['seed'], PROPERTY, 'large', spec['shard'])
+    w, preset = spec['w'], spec['preset']
+    n = ((spec['mib'] << 20) // (w // 8)) & ~1
+    raw = rng.randbytes(n * (w // 8))
+    words = [int.from_bytes(raw[i:i + w // 8], 'little') for i in range(0, len(raw), w // 8)]
+    head = 20000
+    words[-head:] = words[:head]                      # a repeat (n - head) words back
+    for i in range(head, min(n - head, head + 200000)):
+        words[i] &= 0xFF                                  # a compressible stretch too
+    del raw
+    counters: Dict[str, Any] = {'large_images': 1, 'large_pool_words': n}
+    violations: List[Dict[str, Any]] = []
+    tag = f'preset{preset}/w{w}/{spec["mib"]}MiB'
+    start = 2 * rng.randrange(0, 1000)
+    length = n + 2 * rng.choice([0, 1, 600])
+    readers = {}
+    for version in (1, 3):
+        path = engines.tmpdir() / f'large-v{version}.fjm'
+        try:
+            writer = Writer(path, w, FJMVersion(version), lzma_preset=preset)
+            ds = writer.add_data(list(words))
+            writer.add_segment(start, length, ds, n)
+            writer.write_to_file()
+        except FlipJumpWriteFjmException:
+            counters['large_rejected_by_writer'] = counters.get('large_rejected_by_writer', 0) + 1
+            continue
+        counters['monitor_evaluations'] = counters.get('monitor_evaluations', 0) + 1
+        try:
+            readers[version] = Reader(path)
+        except FlipJumpReadFjmException as exc:
+            violations.append({'key': 'reader-refuses-writer-output/large-pool', 'what': f'v{version} {tag}: writer accepted, reader refused: {exc}',
+                               'replay': {'kind': 'large', 'spec': spec, 'version': version}})
+        finally:
+            path.unlink()
+    probes = list(range(0, 300)) + list(range(n - head - 100, n)) + [rng.randrange(n) for _ in range(20000)]
+    for version, reader in readers.items():
+        for i in probes:
+            counters['words_compared'] = counters.get('words_compared', 0) + 1
+            got = reader.get_word((start + i) * w)
+            if got != words[i]:
+                violations.append({'key': 'word-value/large-pool', 'what': f'v{version} {tag}: word {start + i}: got {got:#x} want {words[i]:#x}',
+                                   'replay': {'kind': 'large', 'spec': spec, 'version': version}})
+                break
+        segs = [(s.segment_start, s.segment_length) for s in reader.memory_segments]
+        if segs != [(start, length)]:
+            violations.append({'key': 'segments/large-pool', 'what': f'v{version} {tag}: segments {segs} want {[(start, length)]}',
+                               'replay': {'kind': 'large', 'spec': spec, 'version': version}})
+    engines.cleanup_tmpdir()
+    return {'counters': counters, 'violations': violations, 'hashes': [f'large:{tag}'], 'samples': [],
+            'evaluations': counters.get('monitor_evaluations', 0)}
 
 
 def shard_contracts(spec: Dict[str, Any]) -> Dict[str, Any]:
@@ -175,11 +241,25 @@ def gen_calls(rng: random.Random) -> Dict[str, Any]:
             datas[victim[3]][rng.randrange(len(datas[victim[3]]))] = -rng.choice([1, 2, 1 << 70])
         elif kind == 'beyond-u64':
             victim[1] = (1 << 64) - rng.choice([0, 2, victim[2]])
-    return {'w': w, 'calls': calls, 'flaws': sorted(set(flaws)), 'preset': rng.randrange(10)}
+    resume = False
+    if rng.random() < 0.35:
+        # the caller CATCHES a rejected call and goes on (a rejected call must leave the writer as it was): every later call
+        # still counts, and some rejected segments are retried with the same data range at a free address
+        resume = True
+        flaws.append('resume-after-rejection')
+        cursor = max([c[1] + c[2] for c in calls if c[0] == 'segment' and c[1] + c[2] < (1 << 50)] + [0]) + 2 * rng.choice([0, 1, 50])
+        cursor += cursor % 2
+        for call in [c for c in calls if c[0] == 'segment']:
+            if rng.random() < 0.6 and cursor + call[2] + 2 <= (top_words if not beyond else 1 << 62):
+                length = call[2] + call[2] % 2 or 2
+                calls.append(['segment', cursor, max(length, call[5] + call[5] % 2), call[3], call[4], call[5] - call[5] % 2])
+                cursor += max(length, call[5]) + 2 + 2 * rng.choice([0, 3])
+                cursor += cursor % 2
+    return {'w': w, 'calls': calls, 'flaws': sorted(set(flaws)), 'preset': rng.randrange(10), 'resume': resume}
 
 
 # ------------------------------------------------------------------------------ model + oracle
-def model_of(case: Dict[str, Any]) -> Optional[Dict[str, Any]]:
+def model_of(case: Dict[str, Any], accepted: Optional[List[int]] = None) -> Optional[Dict[str, Any]]:
     """what the calls mean: captured BEFORE the writer touches its data (relative-jump rewrite happens in place).
     returns None when the sequence is not meaningful (a data range outside the supplied data)."""
     datas: List[List[int]] = []
@@ -187,7 +267,12 @@ def model_of(case: Dict[str, Any]) -> Optional[Dict[str, Any]]:
     offsets: List[int] = []
     segments: List[Tuple[int, int, List[int]]] = []
     ok = True
-    for call in case['calls']:
+    for index, call in enumerate(case['calls']):
+        if accepted is not None and index not in accepted:
+            if call[0] == 'data':
+                offsets.append(-1)  # (a rejected data block: nothing refers to it - drive_writer skips such segment calls)
+                datas.append([])
+            continue
         if call[0] == 'data':
             offsets.append(len(pool))
             datas.append(list(call[1]))
@@ -203,20 +288,32 @@ def model_of(case: Dict[str, Any]) -> Optional[Dict[str, Any]]:
     return {'segments': segments, 'meaningful': ok}
 
 
-def drive_writer(case: Dict[str, Any], version: int, path: Path) -> Tuple[str, Optional[BaseException]]:
+def drive_writer(case: Dict[str, Any], version: int, path: Path, accepted: Optional[List[int]] = None) -> Tuple[str, Optional[BaseException]]:
+    """`accepted` (resume mode): filled with the indices of the calls the writer accepted; a rejected call is caught and the
+    sequence goes on, as a caller that handles the library's write error would."""
     from flipjump.fjm.fjm_consts import FJMVersion
     from flipjump.fjm.fjm_writer import Writer
     from flipjump.utils.exceptions import FlipJumpWriteFjmException
 
     try:
         writer = Writer(path, case['w'], FJMVersion(version), lzma_preset=case['preset'])
-        starts: List[int] = []
-        for call in case['calls']:
-            if call[0] == 'data':
-                starts.append(writer.add_data(list(call[1])))
-            else:
-                _, start, length, ref, off, dl = call
-                writer.add_segment(start, length, starts[ref] + off, dl)
+        starts: List[Optional[int]] = []
+        for index, call in enumerate(case['calls']):
+            try:
+                if call[0] == 'data':
+                    starts.append(None)
+                    starts[-1] = writer.add_data(list(call[1]))
+                else:
+                    _, start, length, ref, off, dl = call
+                    if starts[ref] is None:
+                        continue  # refers to a data block the writer rejected
+                    writer.add_segment(start, length, starts[ref] + off, dl)
+            except FlipJumpWriteFjmException:
+                if accepted is None:
+                    raise
+                continue
+            if accepted is not None:
+                accepted.append(index)
         writer.write_to_file()
         return 'accepted', None
     except FlipJumpWriteFjmException as exc:
@@ -305,7 +402,13 @@ def judge(case: Dict[str, Any], rng: random.Random, counters: Dict[str, Any]) ->
         path = engines.tmpdir() / f'c06-v{version}.fjm'
         if path.exists():
             path.unlink()
-        status, exc = drive_writer(case, version, path)
+        accepted_calls: Optional[List[int]] = [] if case.get('resume') else None
+        status, exc = drive_writer(case, version, path, accepted_calls)
+        if accepted_calls is not None:
+            model = model_of(case, accepted_calls)
+            counters['calls_rejected_and_resumed'] = counters.get('calls_rejected_and_resumed', 0) + len(case['calls']) - len(accepted_calls)
+            if not any(case['calls'][i][0] == 'segment' for i in accepted_calls):
+                continue  # nothing was accepted: nothing to read back
         outcomes[version] = status
         counters.setdefault('writer_outcomes', {})
         counters['writer_outcomes'][status] = counters['writer_outcomes'].get(status, 0) + 1
@@ -397,6 +500,8 @@ def run_shard(spec: Dict[str, Any], journal: Any) -> Dict[str, Any]:
         return shard_assembled(spec)
     if spec['kind'] == 'contracts-under-repo-tests':
         return shard_contracts(spec)
+    if spec['kind'] == 'large-compressed':
+        return shard_large(spec)
     from fjverif import contracts_plugin
 
     contracts_on = contracts_plugin.apply()  # the generated call sequences run with the same contracts on
@@ -443,6 +548,8 @@ def finalize(tier: str, seed: int, counters: Dict[str, Any], evaluations: int, d
         inconclusive.append(f'writer acceptance rate too low: {outcomes}')
     if not counters.get('words_compared'):
         inconclusive.append('no word was compared')
+    if not counters.get('large_images'):
+        inconclusive.append('no image larger than the compression window was written')
     if not counters.get('contract_evaluations'):
         inconclusive.append('the icontract tier (repository tests under contracts) did not report')
     if not counters.get('assembled_programs'):
